@@ -493,6 +493,14 @@ theorem C06_pixels_are_screen (s : Img) :
   unfold Img.pixels
   exact rowMajor_index s.get s.w s.h
 
+/-- a completed update that leaves the client without a screen (it carried no pixel data: only a cursor shape, say)
+    does not complete a capture and writes nothing: the capture keeps waiting, with exactly one new full request -/
+theorem C06_capture_waits_for_pixels (a : App) (core : Core) (f : Word) (box : Option (Int × Int × Int × Int))
+    (h : a.waiter = some (.capture f box)) :
+    onCommit core none a = ({ a with waiter := some (.capture f box) }, requestAll core false) := by
+  unfold onCommit
+  rw [h]
+
 /-- without a pending capture / expect a commit does nothing -/
 theorem C06_commit_without_waiter (a : App) (core : Core) (screen : Option Img) (h : a.waiter = none) :
     onCommit core screen a = (a, []) := by
